@@ -15,7 +15,7 @@
 import glob, json, os, re, shutil, subprocess, sys, time
 
 VERIF = os.path.dirname(os.path.dirname(os.path.abspath(__file__)))
-SCRATCH = "/tmp/zsim-mutants"
+SCRATCH = os.environ.get("ZSIM_SCRATCH", "/tmp/zsim-mutants")
 ENV = dict(os.environ, CARGO_NET_OFFLINE="true")
 for k in ("RUSTFLAGS", "CARGO_ENCODED_RUSTFLAGS", "CARGO_BUILD_RUSTFLAGS"):
     ENV.pop(k, None)
